@@ -1,0 +1,11 @@
+//go:build !verif
+
+package smtp_downstream
+
+import "github.com/foxcpp/maddy/framework/module"
+
+// Trace hooks of the verification harness (/verif); no-ops without the build tag "verif".
+
+func verifRcpt(*delivery, string, error)                                      {}
+func verifBody(_ *delivery, sc module.StatusCollector) module.StatusCollector { return sc }
+func verifBodyDone(*delivery)                                                 {}
